@@ -47,6 +47,12 @@ func universe(thorough bool) []*item {
 	for _, f := range []float32{float32(math.Inf(-1)), -math.MaxFloat32, -1, 0, 1, math.MaxFloat32, float32(math.Inf(1))} {
 		specs = append(specs, &vals.Spec{T: vals.TAF32, F32s: []float32{f}}, &vals.Spec{T: vals.TAF32, F32s: []float32{7, f}})
 	}
+	// integers that differ but convert to the same float64 (an order decided on a converted value
+	// disagrees with an equality decided on the exact one)
+	for _, v := range []int64{1 << 53, 1<<53 + 1, 1 << 62, 1<<62 + 100, -(1 << 53), -(1<<53 + 1)} {
+		specs = append(specs, &vals.Spec{T: vals.TLong, I: v}, &vals.Spec{T: vals.TDec, I: v},
+			&vals.Spec{T: vals.TLSum, I: v, Count: 3, MinI: 1, MaxI: 6}, &vals.Spec{T: vals.TAI64, I64s: []int64{v}})
+	}
 	r := []*vals.Spec{{T: vals.TNull}, {T: vals.TDec, I: 1}, {T: vals.TDec, I: 2}, {T: vals.TText, S: "a"}, {T: vals.TBool, B: true}}
 	if thorough {
 		r = append(r, &vals.Spec{T: vals.TBlob, Nil: true}, &vals.Spec{T: vals.TBlob, Bytes: []byte{}}, &vals.Spec{T: vals.TFlt, F32: 1})
